@@ -1,7 +1,9 @@
 module verif/harness
 
-go 1.13
+go 1.21
 
 require github.com/asticode/go-astits v0.0.0
+
+require github.com/asticode/go-astikit v0.30.0 // indirect
 
 replace github.com/asticode/go-astits => /repo
